@@ -188,6 +188,18 @@ func Run(tier string) int {
 			}
 		}
 	}
+	// time filters whose value is another time field of the same stream plus or minus a duration: as a single
+	// value, as lower / upper bound and as a range, plain and negated
+	for _, a := range timeArithAtoms() {
+		for _, n := range []*ref.Node{ref.A(a), ref.Not(ref.A(a))} {
+			t := n.Text()
+			if !seenText[t] {
+				seenText[t] = true
+				cases = append(cases, caseT{n, t, []string{"timewide"}})
+				famCounts["time filters with field arithmetic (plain and negated)"]++
+			}
+		}
+	}
 	uniCache := map[string][]*ref.Rec{}
 	job := mc.ShardedJob{
 		N:        len(cases),
@@ -401,6 +413,63 @@ func arithAtoms() []*ref.Atom {
 	return out
 }
 
+// timeArithAtoms enumerates ftime / ltime / time filters whose bounds are @ftime@ or @ltime@ plus or minus a duration.
+func timeArithAtoms() []*ref.Atom {
+	type expr struct {
+		text string
+		val  func(r *ref.Rec) time.Time
+	}
+	var exprs []expr
+	for _, v := range []string{"ftime", "ltime"} {
+		for _, d := range []struct {
+			t string
+			d time.Duration
+		}{{"", 0}, {"+4s", 4 * time.Second}, {"-5s", -5 * time.Second}, {"+1s", time.Second}, {"+1h", time.Hour}, {"-1h", -time.Hour}} {
+			v, d := v, d
+			exprs = append(exprs, expr{"@" + v + "@" + d.t, func(r *ref.Rec) time.Time {
+				if v == "ftime" {
+					return r.FTime.Add(d.d)
+				}
+				return r.LTime.Add(d.d)
+			}})
+		}
+	}
+	exprs = append(exprs, expr{"2020-01-01 120003", func(*ref.Rec) time.Time { return ref.T0.Add(3 * time.Second) }})
+	var out []*ref.Atom
+	for _, key := range []string{"ftime", "ltime", "time"} {
+		key := key
+		// lo / hi of the filter: nil = open
+		mk := func(text string, lo, hi func(r *ref.Rec) time.Time) {
+			out = append(out, &ref.Atom{Text: text, Eval: func(r *ref.Rec) bool {
+				first, last := r.FTime, r.LTime
+				switch key {
+				case "ftime":
+					last = first
+				case "ltime":
+					first = last
+				}
+				// the span [first,last] of the filter's field(s) must reach lo and must not start after hi
+				if lo != nil && last.Before(lo(r)) {
+					return false
+				}
+				if hi != nil && first.After(hi(r)) {
+					return false
+				}
+				return true
+			}})
+		}
+		for _, a := range exprs {
+			mk(key+`:"`+a.text+`"`, a.val, a.val)
+			mk(key+`:"`+a.text+`:"`, a.val, nil)
+			mk(key+`:":`+a.text+`"`, nil, a.val)
+			for _, b := range exprs {
+				mk(key+`:"`+a.text+":"+b.text+`"`, a.val, b.val)
+			}
+		}
+	}
+	return out
+}
+
 func descRec(r *ref.Rec, groups []string) string {
 	var parts []string
 	for _, g := range groups {
@@ -415,7 +484,7 @@ func descRec(r *ref.Rec, groups []string) string {
 			parts = append(parts, fmt.Sprintf("chost=%s shost=%s", r.CHost, r.SHost))
 		case "proto":
 			parts = append(parts, fmt.Sprintf("proto=%d", r.Proto))
-		case "time":
+		case "time", "timewide":
 			parts = append(parts, fmt.Sprintf("ftime=%s ltime=%s", r.FTime.Format("150405"), r.LTime.Format("150405")))
 		case "data":
 			s := ""
@@ -436,4 +505,3 @@ func firstLine(s string) string {
 	}
 	return s
 }
-
